@@ -159,4 +159,9 @@ def check(ctx: Ctx) -> str:
     from .c22 import fresh_list_rule
 
     fresh_list_rule(ctx, "R5")
+    # sync and async forms decide alike when the memoised default module may be shared (rule
+    # owned by C09)
+    from . import c09
+
+    ctx.run_imported("C09", {"R3"}, c09.check)
     return __doc__ or ""
